@@ -52,6 +52,15 @@ Theorem C35_tags_distinct_and_balanced :
 Proof. exact precomputed_good. Qed.
 Print Assumptions C35_tags_distinct_and_balanced.
 
+(* "every supported partition count": FindTags accepts exactly the sizes of
+   the generated table, so the statement above covers every accepted count
+   (the correspondence probes the real FindTags over 0..16400 and flags any
+   accepted count outside this set). *)
+Theorem C35_supported_counts :
+  forall p, (exists tags, find_tags precomputed p = Some tags) <-> In p (map fst precomputed).
+Proof. exact (find_tags_supported precomputed). Qed.
+Print Assumptions C35_supported_counts.
+
 Theorem C35_balanced_means_diff_le_1 :
   forall n slots, balanced n slots ->
     forall j1 j2, j1 < n -> j2 < n -> node_count n j1 slots <= node_count n j2 slots + 1.
